@@ -1,5 +1,6 @@
-(* C18 — scalars: round trip of Real32/Real64 and plain scalars, reader characterisation,
-   refutations (Hessian-only documents, unchecked Hessian shape, constant scalars). *)
+(* C18 — scalars: round trip of Real32/Real64 (every well-formed Real, Hessian-only documents included),
+   of plain and of constant scalars; safety of the Real reader on every document.  The former refutation
+   witnesses (Hessian-only, unchecked Hessian shape, constant scalars) are regression examples now. *)
 From Coq Require Import ZArith List Bool Lia.
 From ADV Require Import C18.Model C18.Spec C18.ProofsBase.
 Import ListNotations.
@@ -140,12 +141,34 @@ Proof.
   rewrite (mapM_rows_roundtrip fmtJ parseJ fmt_parse _ _ H). reflexivity.
 Qed.
 
-Lemma real_roundtrip r d :
-  wf_real F r -> ~ hess_only F nz r ->
-  write_real F T nz fmtJ r = Ok d ->
-  exists r', read_real F T parseJ d = Ok r' /\ wf_real F r' /\ real_obs_eq F zero nz r r'.
+Lemma const_roundtrip x t : write_const F T fmtJ x = Ok t -> read_plain F T parseJ t = Ok x.
+Proof. exact (plain_roundtrip x t). Qed.
+
+Lemma rows_len_true n (H : list (list F)) : Forall (fun row => zlen row = n) H -> rows_len F n H = true.
 Proof.
-  intros Hwf Hho Hw. unfold write_real in Hw.
+  intros HF. unfold rows_len. apply forallb_forall. intros row Hin.
+  eapply Forall_forall in HF; [|eassumption]. apply Z.eqb_eq. assumption.
+Qed.
+Lemma rows_len_Forall n (H : list (list F)) : rows_len F n H = true -> Forall (fun row => zlen row = n) H.
+Proof.
+  unfold rows_len. intros Hb. apply Forall_forall. intros row Hin.
+  eapply forallb_forall in Hb; [|eassumption]. apply Z.eqb_eq. assumption.
+Qed.
+
+Lemma zlen_repeat {A} (a : A) n : zlen (repeat a n) = Z.of_nat n.
+Proof. unfold zlen. rewrite repeat_length. reflexivity. Qed.
+Lemma znth_repeat {A} (a : A) n i : 0 <= i < Z.of_nat n -> znth (repeat a n) i = Some a.
+Proof.
+  intros Hi. destruct (znth_some (repeat a n) i) as [x Hx]; [rewrite zlen_repeat; lia|].
+  rewrite Hx. f_equal. apply znth_In in Hx. eapply repeat_spec; eassumption.
+Qed.
+
+Lemma real_roundtrip r d :
+  wf_real F r ->
+  write_real F T nz fmtJ r = Ok d ->
+  exists r', read_real F T zero parseJ d = Ok r' /\ wf_real F r' /\ real_obs_eq F zero nz r r'.
+Proof.
+  intros Hwf Hw. unfold write_real in Hw.
   apply bind_ok in Hw as (t1 & Ht1 & Hw). apply bind_ok in Hw as (t2 & Ht2 & Hw).
   apply bind_ok in Hw as (v & Hv & Hw). apply of_opt_ok in Hv. apply fmt_parse in Hv.
   pose proof Hwf as (Ho & Hn & Hd & Hh).
@@ -155,9 +178,9 @@ Proof.
     apply fmt_list_parse in Hdd. apply fmt_rows_parse in Hhh.
     destruct (t1_true_order _ Ht1) as (O1 & N1 & D1). destruct (t2_true_order _ Ht2) as (O2 & N2 & H2).
     simpl. rewrite Hv; simpl. rewrite Hdd; simpl. rewrite Hhh; simpl.
-    destruct (rderiv r) as [|d0 dl] eqn:ED; [congruence|]. destruct (rhess r) as [|h0 hl] eqn:EH; [congruence|].
-    rewrite Z.eqb_refl. simpl. eexists; split; [reflexivity|].
     specialize (Hd ltac:(lia)). destruct (Hh ltac:(lia)) as [Hh1 Hh2].
+    destruct (rderiv r) as [|d0 dl] eqn:ED; [congruence|]. destruct (rhess r) as [|h0 hl] eqn:EH; [congruence|].
+    rewrite Hh1, Hd, Z.eqb_refl. rewrite (rows_len_true _ _ Hh2). simpl. eexists; split; [reflexivity|].
     split.
     + unfold wf_real; simpl. rewrite Hd. repeat split; try lia; auto.
     + unfold real_obs_eq; simpl. split; [reflexivity|]. split; [|split; [|split]].
@@ -167,7 +190,7 @@ Proof.
       * intros i j Hi Hj. destruct (getH_wf r i j Hwf Hi Hj) as [x Hx]. exists x, x. split; [assumption|]. split; [|apply zeq_refl].
         revert Hx. unfold Model.getH; simpl. rewrite EH.
         replace (rorder r >=? 2) with true by lia. simpl. tauto.
-      * intros _. split; [assumption|congruence].
+      * intros _. split; [reflexivity|congruence].
       * intros _. congruence.
   - (* {Value, Derivative} *)
     apply bind_ok in Hw as (dd & Hdd & Hw). inversion Hw; subst d; clear Hw.
@@ -187,8 +210,30 @@ Proof.
         exists h, zero. split; [assumption|]. split; [reflexivity|]. right; split; assumption.
       * intros _. split; [assumption|congruence].
       * intros C; congruence.
-  - (* {Value, Hessian}: excluded *)
-    exfalso. apply Hho. split; assumption.
+  - (* {Value, Hessian}: the gradient comes back as N zeros *)
+    apply bind_ok in Hw as (hh & Hhh & Hw). inversion Hw; subst d; clear Hw.
+    apply fmt_rows_parse in Hhh.
+    destruct (t2_true_order _ Ht2) as (O2 & N2 & H2).
+    destruct (Hh ltac:(lia)) as [Hh1 Hh2].
+    simpl. rewrite Hv; simpl. rewrite Hhh; simpl.
+    destruct (rhess r) as [|h0 hl] eqn:EH; [congruence|].
+    rewrite Hh1. rewrite (rows_len_true _ _ Hh2). cbn [negb].
+    assert (Hlen : Z.of_nat (length (h0 :: hl)) = rn r) by (exact Hh1).
+    remember (length (h0 :: hl)) as nn eqn:Enn. clear Enn.
+    eexists; split; [reflexivity|].
+    split.
+    + unfold wf_real; simpl rorder; simpl rn; simpl rderiv; simpl rhess.
+      split; [lia|]. split; [lia|]. split; [intros _; rewrite zlen_repeat; exact Hlen|]. intros _. split; assumption.
+    + unfold real_obs_eq; simpl rval; simpl rn. split; [reflexivity|]. split; [|split; [|split]].
+      * intros i Hi. destruct (getD_zero_when_t1_false r i Hwf Ht1 Hi) as (x & Hx & Hz).
+        exists x, zero. split; [assumption|]. split; [|right; split; assumption].
+        unfold Model.getD. simpl rorder. simpl rderiv. replace (2 >=? 1) with true by reflexivity.
+        rewrite znth_repeat by lia. reflexivity.
+      * intros i j Hi Hj. destruct (getH_wf r i j Hwf Hi Hj) as [x Hx]. exists x, x. split; [assumption|]. split; [|apply zeq_refl].
+        revert Hx. unfold Model.getH; simpl. rewrite EH.
+        replace (rorder r >=? 2) with true by lia. simpl. tauto.
+      * intros C; congruence.
+      * intros _. simpl. congruence.
   - (* bare number *)
     inversion Hw; subst d; clear Hw. simpl. rewrite Hv; simpl.
     eexists; split; [reflexivity|]. split.
@@ -202,52 +247,106 @@ Proof.
       * intros C; congruence.
 Qed.
 
-(* what the reader guarantees about its result — exactly the shape facts it establishes *)
-Lemma real_reader_shape d r :
-  read_real F T parseJ d = Ok r ->
-  0 <= rorder r <= 2 /\ 0 <= rn r /\ (1 <= rorder r -> zlen (rderiv r) = rn r) /\
-  (wf_real F r <-> (2 <= rorder r -> zlen (rhess r) = rn r /\ Forall (fun row => zlen row = rn r) (rhess r))).
+(* reader safety: whatever the reader accepts is a well-formed Real — on EVERY document *)
+Definition real_of (x : F) (D : list F) (H : list (list F)) : res (real F) :=
+  match D, H with
+  | _ :: _, _ :: _ =>
+      if negb (zlen H =? zlen D) then Err
+      else if negb (rows_len F (zlen D) H) then Err
+      else Ok (mkReal x 2 (zlen D) D H)
+  | _ :: _, [] => Ok (mkReal x 1 (zlen D) D [])
+  | [], _ :: _ =>
+      if negb (rows_len F (zlen H) H) then Err
+      else Ok (mkReal x 2 (zlen H) (repeat zero (length H)) H)
+  | [], [] => Ok (mkReal x 0 0 [] [])
+  end.
+Lemma read_real_obj tv td th :
+  read_real F T zero parseJ (SObj tv td th) =
+  (x <- of_opt (parseJ tv) ;;
+   D <- parse_list F T parseJ (match td with Some l => l | None => [] end) ;;
+   H <- parse_rows F T parseJ (match th with Some l => l | None => [] end) ;; real_of x D H).
+Proof. reflexivity. Qed.
+
+Lemma real_of_safe x D H r : real_of x D H = Ok r -> wf_real F r.
 Proof.
-  intros H.
-  assert (P : 0 <= rorder r <= 2 /\ 0 <= rn r /\ (1 <= rorder r -> zlen (rderiv r) = rn r)).
-  { destruct d as [t|tv td th]; simpl in H.
-    - apply bind_ok in H as (x & _ & H). inversion H; subst; simpl. repeat split; try lia.
-    - apply bind_ok in H as (x & _ & H). apply bind_ok in H as (D & _ & H). apply bind_ok in H as (Hs & _ & H).
-      destruct D as [|d0 D], Hs as [|h0 Hs]; try rewrite Z.eqb_refl in H; simpl in H; inversion H; subst; simpl;
-        (split; [lia|]); (split; [try apply zlen_nonneg; lia|]); intros; try reflexivity; lia. }
-  destruct P as (P1 & P2 & P3). split; [assumption|]. split; [assumption|]. split; [assumption|].
-  unfold wf_real. tauto.
+  unfold real_of. intros Hr.
+  destruct D as [|d0 D].
+  - destruct (H) as [|h0 Hs] eqn:EH.
+    + inversion Hr; subst. unfold wf_real; simpl. repeat split; try lia; intros; lia.
+    + rewrite <- EH in *. clear EH.
+      destruct (rows_len F (zlen H) H) eqn:Er; cbn [negb] in Hr; [|discriminate].
+      inversion Hr; subst; clear Hr. apply rows_len_Forall in Er.
+      unfold wf_real; cbn [rorder rn rderiv rhess].
+      split; [lia|]. split; [apply zlen_nonneg|]. split; [intros _; apply zlen_repeat|].
+      intros _. split; [reflexivity|assumption].
+  - remember (d0 :: D) as DD eqn:EDD.
+    destruct (H) as [|h0 Hs] eqn:EH.
+    + rewrite EDD in Hr. inversion Hr; subst. unfold wf_real; cbn [rorder rn rderiv rhess].
+      split; [lia|]. split; [apply zlen_nonneg|]. split; [reflexivity|]. intros; lia.
+    + rewrite <- EH in *. clear EH. rewrite EDD in Hr. rewrite <- EDD in Hr.
+      destruct (zlen H =? zlen DD) eqn:El; cbn [negb] in Hr; [|discriminate].
+      destruct (rows_len F (zlen DD) H) eqn:Er; cbn [negb] in Hr; [|discriminate].
+      inversion Hr; subst r; clear Hr. apply rows_len_Forall in Er. apply Z.eqb_eq in El.
+      unfold wf_real; cbn [rorder rn rderiv rhess].
+      split; [lia|]. split; [apply zlen_nonneg|]. split; [reflexivity|].
+      intros _. split; assumption.
+Qed.
+
+Lemma real_reader_safe d r : read_real F T zero parseJ d = Ok r -> wf_real F r.
+Proof.
+  intros H. destruct d as [t|tv td th].
+  - simpl in H. apply bind_ok in H as (x & _ & H). inversion H; subst. unfold wf_real; simpl. repeat split; try lia; intros; lia.
+  - rewrite read_real_obj in H.
+    apply bind_ok in H as (x & _ & H). apply bind_ok in H as (D & _ & H). apply bind_ok in H as (Hs & _ & H).
+    eapply real_of_safe; eassumption.
+Qed.
+
+Lemma real_of_total x D H : real_of x D H <> Panic /\ real_of x D H <> Crash.
+Proof.
+  unfold real_of. destruct D, H; try (split; discriminate).
+  - destruct (negb (rows_len F _ _)); split; discriminate.
+  - destruct (negb (_ =? _)); [split; discriminate|]. destruct (negb (rows_len F _ _)); split; discriminate.
+Qed.
+
+(* the scalar readers never panic or crash *)
+Lemma real_reader_total d : read_real F T zero parseJ d <> Panic /\ read_real F T zero parseJ d <> Crash.
+Proof.
+  destruct d as [t|tv td th].
+  - simpl. destruct (parseJ t); simpl; split; discriminate.
+  - rewrite read_real_obj.
+    destruct (parseJ tv); simpl; [|split; discriminate].
+    unfold parse_list, parse_rows.
+    destruct (mapM parseJ _); simpl; [|split; discriminate].
+    destruct (mapM (mapM parseJ) _); simpl; [|split; discriminate].
+    apply real_of_total.
 Qed.
 
 End Scalar.
 
-(* ---------------------------------------------------------------- refutations (integer instance) *)
+(* ---------------------------------------------------------------- regression examples (integer instance) *)
 Definition Zwr := write_real Z Z Znz Zfmt.
-Definition Zrd := read_real Z Z Zparse.
+Definition Zrd := read_real Z Z 0 Zparse.
 
-(* z = x*y at (0,0): gradient (0,0), Hessian [[0,1],[1,0]] *)
+(* z = x*y at (0,0): gradient (0,0), Hessian [[0,1],[1,0]] — the witness of the retired finding F-JSON-HESSONLY *)
 Definition hessonly_witness : real Z := mkReal 0 2 2 [0; 0] [[0; 1]; [1; 0]].
 
-Lemma real_hessonly_refuted :
-  exists r d r', wf_real Z r /\ Zwr r = Ok d /\ Zrd d = Ok r' /\
-                 rn r' = 0 /\ getD Z 0 r' 0 = Panic /\ ~ real_obs_eq Z 0 Znz r r' /\ ~ wf_real Z r'.
+Lemma real_hessonly_regression :
+  wf_real Z hessonly_witness /\ hess_only Z Znz hessonly_witness /\
+  Zwr hessonly_witness = Ok (SObj 0 None (Some [[0; 1]; [1; 0]])) /\
+  Zrd (SObj 0 None (Some [[0; 1]; [1; 0]])) = Ok hessonly_witness.
 Proof.
-  exists hessonly_witness. eexists. eexists. split.
-  { unfold wf_real, hessonly_witness; simpl. repeat split; try lia. repeat constructor. }
-  split; [vm_compute; reflexivity|]. split; [vm_compute; reflexivity|].
-  split; [reflexivity|]. split; [reflexivity|]. split.
-  - intros (_ & HD & _). destruct (HD 0 ltac:(simpl; lia)) as (d & d' & _ & H & _). vm_compute in H. discriminate.
-  - intros (_ & _ & _ & H). simpl in H. destruct H as [H _]; [lia|]. vm_compute in H. discriminate.
+  split. { unfold wf_real, hessonly_witness; simpl. repeat split; try lia. repeat constructor. }
+  split; [split; reflexivity|]. split; reflexivity.
 Qed.
 
-(* the scalar reader compares len(r.Derivative) with itself: no shape check *)
-Lemma real_reader_unsafe_refuted :
-  exists d r, Zrd d = Ok r /\ ~ wf_real Z r /\ getH Z 0 r 0 1 = Ok 2 /\ getH Z 0 r 1 1 = Panic.
-Proof.
-  exists (SObj 1 (Some [1]) (Some [[1; 2]; [3]])). eexists. split; [vm_compute; reflexivity|].
-  split; [|split; reflexivity].
-  intros (_ & _ & _ & H). simpl in H. destruct H as [H _]; [lia|]. vm_compute in H. discriminate.
-Qed.
+(* ragged / mis-sized Hessians (witness of the retired F-JSON-REALSHAPE) are answered with an error *)
+Lemma real_reader_shape_regression :
+  Zrd (SObj 1 (Some [1]) (Some [[1; 2]; [3]])) = Err /\
+  Zrd (SObj 1 (Some [1]) (Some [[1; 2]])) = Err /\
+  Zrd (SObj 1 (Some [1; 2]) (Some [[1; 2]])) = Err /\
+  Zrd (SObj 1 None (Some [[1; 2]])) = Err /\
+  Zrd (SObj 1 None (Some [[1]])) = Ok (mkReal 1 2 1 [0] [[1]]).
+Proof. repeat split; reflexivity. Qed.
 
-Lemma const_write_refuted : forall x : Z, write_const Z Z x = Crash.
+Lemma const_write_regression : forall x : Z, write_const Z Z Zfmt x = Ok x.
 Proof. reflexivity. Qed.
